@@ -44,11 +44,11 @@ def parseLogs (s : String) : Option (Nat × Nat) :=
 
 def hdrOf (id : Nat) (ws : List String) : Option (CallHdr NS) :=
   match ws with
-  | [callc, cap, stip, kind, xfer, sw, pOk, pFail] =>
+  | [callc, cap, stip, kind, xfer, funded, sw, pOk, pFail] =>
     match callc.toNat?, cap.toNat?, stip.toNat?, parseKind kind, pOk.toNat?, pFail.toNat? with
     | some callc, some cap, some stip, some kind, some pOk, some pFail =>
       some { callc, cap, stip, kind, xfer := if xfer == "1" then some (fun n => (100000 + id) :: n) else none,
-             swallow := sw == "1", pOk, pFail }
+             funded := fun _ => funded == "1", swallow := sw == "1", pOk, pFail }
     | _, _, _, _, _, _ => none
   | _ => none
 
@@ -72,17 +72,17 @@ partial def parseList : List String → Option (List (Prog NS) × List Nat × Li
     match parseList rest with
     | some (ns, ms, r) => some (.invalid :: ns, ms, r)
     | none => none
-  | "C" :: id :: a :: b :: c :: d :: e :: f :: g :: h :: "[" :: rest =>
+  | "C" :: id :: a :: b :: c :: d :: e :: f :: g :: h :: i :: "[" :: rest =>
     match id.toNat? with
     | some id =>
-      match hdrOf id [a, b, c, d, e, f, g, h], parseList rest with
+      match hdrOf id [a, b, c, d, e, f, g, h, i], parseList rest with
       | some hd, some (body, ms1, r1) =>
         match parseList r1 with
         | some (ns, ms2, r2) => some (.call hd body :: ns, ms1 ++ ms2, r2)
         | none => none
       | _, _ => none
     | none => none
-  | "P" :: id :: a :: b :: c :: d :: e :: f :: g :: h :: req :: mode :: w :: name :: extra :: lgs :: rest0 =>
+  | "P" :: id :: a :: b :: c :: d :: e :: f :: g :: h :: i :: req0 :: mode :: w0 :: name :: extra :: lgs :: rest0 =>
     -- the EVM call made from inside the native action: `-` or `[ <gas allowance> <token program> ]`
     let innerP : Option (List (Nat × List (Prog NS)) × List Nat × List String) :=
       match rest0 with
@@ -92,11 +92,15 @@ partial def parseList : List String → Option (List (Prog NS) × List Nat × Li
         | some g, some (body, ms, r) => some ([(g, body)], ms, r)
         | _, _ => none
       | _ => none
-    match id.toNat?, req.toNat?, parseMode mode, parseLogs lgs, extra.toNat?, innerP with
-    | some id, some req, some md, some (nlog, mark), some extra, some (inner, ims, rest) =>
-      match hdrOf id [a, b, c, d, e, f, g, h], parseList rest with
+    match id.toNat?, req0.toNat?, parseMode mode, parseLogs lgs, extra.toNat?, innerP with
+    | some id, some req0, some md, some (nlog, mark), some extra, some (inner, ims, rest) =>
+      match hdrOf id [a, b, c, d, e, f, g, h, i], parseList rest with
       | some hd, some (ns, ms0, r) =>
         let ms := ims ++ ms0
+        -- RequiredGas and IsReadonly come from the regenerated method table, not from the harness
+        let mrow := FxVerif.Gen.C09.methods.find? (fun m => m.abiName == name)
+        let req := match mrow with | some m => m.requiredGas | none => req0
+        let w := match mrow with | some m => (if m.readonly then "0" else "1") | none => w0
         let rf := factsOf name
         let sh := match rf with | some rf => shapeOf rf | none => RunShape.tidy
         let met := match rf with | some rf => metered rf | none => false
